@@ -197,15 +197,20 @@ fn skip_optional_whitespace(text: &str) -> IResult<&str, ()> {
     map(many0(match_whitespace_item), |_res| ())(text)
 }
 
-fn nmstart_char(s: &str) -> IResult<&str, char> {
+/// First character of a name, as written.
+fn nmstart_char_cased(s: &str) -> IResult<&str, char> {
     let mut iter = s.chars();
     match iter.next() {
         Some(c) => match c {
-            '_' | 'a'..='z' | 'A'..='Z' => Ok((iter.as_str(), c.to_ascii_lowercase())),
+            '_' | 'a'..='z' | 'A'..='Z' => Ok((iter.as_str(), c)),
             _ => IResult::Err(nom::Err::Error(nom::error::Error::new(s, ErrorKind::Fail))),
         },
         None => fail(s),
     }
+}
+
+fn nmstart_char(s: &str) -> IResult<&str, char> {
+    nmstart_char_cased(s).map(|(rest, c)| (rest, c.to_ascii_lowercase()))
 }
 
 fn is_ident_start(c: char) -> bool {
@@ -216,17 +221,20 @@ fn is_digit(c: char) -> bool {
     c.is_ascii_digit()
 }
 
-fn nmchar_char(s: &str) -> IResult<&str, char> {
+/// Character of a name, as written.
+fn nmchar_char_cased(s: &str) -> IResult<&str, char> {
     let mut iter = s.chars();
     match iter.next() {
         Some(c) => match c {
-            '_' | 'a'..='z' | 'A'..='Z' | '0'..='9' | '-' => {
-                Ok((iter.as_str(), c.to_ascii_lowercase()))
-            }
+            '_' | 'a'..='z' | 'A'..='Z' | '0'..='9' | '-' => Ok((iter.as_str(), c)),
             _ => IResult::Err(nom::Err::Error(nom::error::Error::new(s, ErrorKind::Fail))),
         },
         None => fail(s),
     }
+}
+
+fn nmchar_char(s: &str) -> IResult<&str, char> {
+    nmchar_char_cased(s).map(|(rest, c)| (rest, c.to_ascii_lowercase()))
 }
 
 fn ident_escape(s: &str) -> IResult<&str, char> {
@@ -288,6 +296,31 @@ fn parse_identstring(text: &str) -> IResult<&str, String> {
     let (rest, _) = skip_optional_whitespace(text)?;
 
     let (rest, name) = many1(nmchar)(rest)?;
+    Ok((rest, name.into_iter().collect()))
+}
+
+/// An identifier with its letter case kept: class names and ids are
+/// case-sensitive, unlike property names and keywords.
+fn parse_ident_cased(text: &str) -> IResult<&str, String> {
+    let (rest, _) = skip_optional_whitespace(text)?;
+    let mut name = Vec::new();
+    let (rest, dash) = opt(tag("-"))(rest)?;
+    if dash.is_some() {
+        name.push('-');
+    }
+
+    let (rest, start) = alt((nmstart_char_cased, ident_escape))(rest)?;
+    name.push(start);
+
+    let (rest, chars) = many0(alt((nmchar_char_cased, ident_escape)))(rest)?;
+    name.extend(chars);
+    Ok((rest, name.into_iter().collect()))
+}
+
+fn parse_identstring_cased(text: &str) -> IResult<&str, String> {
+    let (rest, _) = skip_optional_whitespace(text)?;
+
+    let (rest, name) = many1(alt((nmchar_char_cased, ident_escape)))(rest)?;
     Ok((rest, name.into_iter().collect()))
 }
 
@@ -819,7 +852,7 @@ pub(crate) fn parse_rules(text: &str) -> IResult<&str, Vec<Declaration>> {
 
 fn parse_class(text: &str) -> IResult<&str, SelectorComponent> {
     let (rest, _) = tag(".")(text)?;
-    let (rest, classname) = parse_ident(rest)?;
+    let (rest, classname) = parse_ident_cased(rest)?;
     Ok((rest, SelectorComponent::Class(classname)))
 }
 
@@ -919,7 +952,7 @@ fn parse_pseudo_class(text: &str) -> IResult<&str, SelectorComponent> {
 
 fn parse_hash(text: &str) -> IResult<&str, SelectorComponent> {
     let (rest, _) = tag("#")(text)?;
-    let (rest, word) = parse_identstring(rest)?;
+    let (rest, word) = parse_identstring_cased(rest)?;
     Ok((rest, SelectorComponent::Hash(word)))
 }
 
